@@ -1,9 +1,11 @@
 """C13 - session access is mutually exclusive and the lock is always released.
 
-Model: lean/CpModel/SessionLock.lean (RamSession interleavings), SessionFile.lean (file backend),
-SessionReq.lean (request-level lock lifecycle); theorems: lean/CpProofs/C13*.lean; driver:
-lean/Drv/C13.lean.  Real code: real RamSession / FileSession objects, the real clean_up and real
-in-process WSGI requests, run on real threads under the deterministic scheduler of c13_sched.py.
+Models: lean/CpModel/SessionLockN.lean (lock-table backends: several ids / threads / sweepers, handler
+scripts), SessionFile.lean (file backend), SessionReq.lean (request-level lock lifecycle),
+SessionAdmit.lean (admission of recorded traces); theorems: lean/CpProofs/C13*.lean; drivers:
+lean/Drv/C13.lean, lean/Drv/C13N.lean.  Real code: real RamSession / MemcachedSession / FileSession
+objects, the real clean_up and real in-process WSGI requests, run on real threads under the
+deterministic scheduler of c13_sched.py; comparison by trace inclusion modulo stuttering.
 """
 from __future__ import annotations
 
@@ -54,42 +56,56 @@ THEOREMS = [
     'CpProofs.C13.sortByPrio_perm',
 ]
 LEVEL = 'proof'
-TECHNIQUE = ('Lean 4 proof: inductive invariants over the step relation of an interleaving model (any number of '
-             'request threads, any schedule, the sweeper and the clock), tied to the real RamSession / FileSession / '
-             'session tool by per-step snapshot comparison under a deterministic scheduler of real threads')
-LEVEL_TEXT = ('Proved in Lean for ANY number of request threads, ANY schedule (request steps, the clean_up sweeper, the '
-              'clock) and every initial cache/lock-table state, at the granularity of single dict/RLock operations: the '
-              'repaired RamSession protocol is mutually exclusive, loses no update, never fails in release_lock, leaves no '
-              'lock owned by a finished request and cannot deadlock; the unrepaired protocol is mutually exclusive without '
-              'sweeper steps and is proved NOT mutually exclusive with them (F20, witness by decide, fixed in /repo). '
-              'FileSession: mutual exclusion / no lost update for any number of threads, processes and clean_up passes and '
-              'any lock-timeout placement, relative to the FileLock contract. Request level: for every fault plan (locking '
-              'mode x backend x handler script incl. regenerate x outcome x plain/generator/streamed body completed, '
-              'abandoned or raising x failing storage x ANY user hooks) the lock is released once close() has run. '
-              'File model at single-file-operation granularity: every truncate/dump/unlink is done by the lock holder and the '
-              'sweep never deletes a file saved after its locked check. '
-              'Partial: the atomic-step assumption (bytecode atomicity of single dict/lock operations, OS scheduling) and '
-              'filelock/RLock correctness are parameters (under the scheduler FileLock is replaced by its contract; real filelock '
-              'runs in the request-level plans and the multi-process counter test); one contended id, one sweeper, no memcached.')
-LEVEL_NOTE = ('Trusted: Lean kernel (propext, Classical.choice, Quot.sound only); the hand models as validated by per-step '
-              'snapshot comparison with real RamSession threads + real clean_up under a deterministic scheduler (all '
-              'schedules with <=1 / <=2 pre-emptions, random and window-targeted ones) and by journal comparison of '
-              'request-level fault plans through in-process WSGI; threading.RLock, filelock.FileLock and the GIL atomicity '
-              'of single dict operations are contracts of the model; the server is assumed to call close() (PEP 3333).')
+TECHNIQUE = ('Lean 4 proof: inductive invariants over the step relation of interleaving models (any number of session '
+             'ids, request threads and concurrent sweepers, handler scripts, any schedule), tied to the real RamSession / '
+             'MemcachedSession / FileSession / session tool by trace inclusion modulo stuttering: real threads under a '
+             'deterministic scheduler are stopped at shared-state accesses only, the Lean driver decides whether the model '
+             'admits the recorded sequence of shared states (soundness of that test proved)')
+LEVEL_TEXT = ('Proved in Lean for ANY number of session ids, request threads and concurrent clean_up sweepers, ANY handler '
+              'script (read-modify-write, delete, clear, regenerate inside the lock), ANY schedule (incl. the clock) and every '
+              'start state in which nobody holds a lock yet, at the granularity of single dict/RLock operations: the repaired '
+              'lock-table protocol (acquire_lock re-check 8584df8 + clean_up re-check 8e1b7bf) is mutually exclusive per id, '
+              'loses no update, never fails in release_lock or clean_up, leaves no lock owned by a finished request, moves the '
+              'lock with regenerate(), cannot deadlock, and steps on one id never touch another id; proved NOT mutually exclusive: '
+              'the unrechecked acquire_lock against one sweeper (F20) and the unrechecked clean_up against two sweepers (C13-F21), '
+              'both fixed in /repo; without sweeper steps both acquire_lock variants are safe (memcached lock protocol). '
+              'FileSession: mutual exclusion / no lost save or unlink / every mutating file operation by the lock holder, for any '
+              'number of threads, processes, clean_up passes and any lock-timeout placement, relative to the FileLock contract. '
+              'Request level: for every fault plan (locking mode x backend x handler script incl. regenerate x outcome x '
+              'plain/generator/streamed body completed, abandoned or raising x failing storage x ANY user hooks) with a handler that '
+              'does not re-acquire / over-release, the lock is released once close() has run. '
+              'The admission test (trace inclusion modulo stuttering) is proved sound: an admitted recorded run of the real '
+              'threads is a schedule of the model. '
+              'Partial: the atomic-step assumption (atomicity of single dict/lock/file operations, OS scheduling), filelock/RLock '
+              'correctness and the memcached client are parameters (under the scheduler FileLock is its contract and memcache a '
+              'fake client; real filelock runs in the request-level plans and the multi-process counter test); file model: one '
+              'contended id; a release_lock that itself fails on the last attempt cannot be compensated (oracle-only plans).')
+LEVEL_NOTE = ('Trusted: Lean kernel (propext, Classical.choice, Quot.sound only); the hand models as validated on every run by '
+              'admission of the recorded shared-state traces of real threads (all schedules with <=1 / <=2 pre-emptions for '
+              'one id, two ids, a regenerating request, two sweepers; random and window-targeted ones; file backend incl. '
+              'lock_timeout expiry through the real polling loop) and by journal comparison of request-level fault plans through '
+              'in-process WSGI; threading.RLock, filelock.FileLock, the memcache client and the atomicity of single dict '
+              'operations are contracts of the model; the server is assumed to call close() (PEP 3333).')
 TRUSTED_BASE = [
-    'atomic-step assumption: each single dict / RLock operation of CPython is atomic (GIL); everything between two '
-    'operations on the shared tables is thread-local',
-    'threading.RLock and filelock.FileLock are parameters of the model (contract: re-entrant mutex / cross-process mutex)',
+    'atomic-step assumption: each single dict / RLock / file-system operation is atomic; everything between two '
+    'operations on the shared objects is thread-local (a turn of a real thread = one such operation)',
+    'threading.RLock, filelock.FileLock and the memcache client are parameters of the model (contract: re-entrant mutex / '
+    'cross-process mutex / a store that hands out copies)',
+    'the proxies see every access to RamSession.cache / RamSession.locks / the session file (accesses that bypass '
+    'sessions.os / sessions.open / sessions.pickle would run inside a turn)',
 ]
 ASSUMPTIONS = [
-    'a single sweeper thread (Session.clean_thread is one Monitor)',
     'the WSGI server calls close() on the response iterable (PEP 3333), which runs on_end_request',
+    'request level: user hooks do not touch the session lock; the handler does not acquire a lock it holds or release '
+    'one it does not hold (otherwise: C13 examples in CpProofs/C13.lean show what happens)',
 ]
-RULE = ('schedules of 2-3 real request threads (RamSession; FileSession on real files) on one session id plus the real clean_up and a logical clock: random, '
-        'window-targeted and all schedules with a bounded number of pre-emptions, from sessions live / expired / '
-        'absent with and without a lock object in the table; request-level fault plans (backend x locking mode x '
-        'outcome x streaming) through in-process WSGI.  Non-trivial: at least two actors executed an enabled step '
-        '(schedules) / the session was locked at some point (plans).  Distinct = distinct concrete token list / plan.')
+RULE = ('schedules of 2-3 real request threads (RamSession, MemcachedSession with a fake client; FileSession on real files) '
+        'on 1-3 session ids, each with a handler script over read-modify-write / delete / clear / regenerate, plus 0-2 real '
+        'clean_up loops and a logical clock: random, window-targeted, lock_timeout-targeted, and all schedules with a bounded '
+        'number of pre-emptions, from sessions live / expired / absent with and without a lock object in the table; '
+        'request-level fault plans (backend x locking mode x outcome x streaming x hooks x faults) through in-process WSGI.  '
+        'Non-trivial: at least two actors changed the observable shared state (schedules) / the session was locked at some '
+        'point (plans).  Distinct = distinct concrete case (ids, scripts, token list) / plan.')
 
 F20_SIG = 'F20:ram_lock_swept_between_setdefault_and_acquire'
 
@@ -148,6 +164,9 @@ def ramn_oracle(case, toks, obs):
     if obs['blocked']:
         bad.append(('request thread(s) %s blocked forever on a session lock nobody will release' % obs['blocked'],
                     sig('blocked_forever')))
+    if obs.get('livelock'):
+        bad.append(('actor(s) %s keep running without ever finishing (livelock inside the session code)'
+                    % obs['livelock'], sig('livelock')))
     for f in obs['frame'][:2]:
         bad.append(('independence of session ids violated: ' + f, sig('frame')))
     for name, old, new, old_owner, new_owner in obs['regen']:
@@ -328,9 +347,9 @@ def ramn_stream(ctx, variants, n_random, n_window, preempt_bound, compare=True):
         chunks.append((regen, ['0', '1', 'S0'], order, preempt_bound, 40, 1, None))
     two_sw = {'kind': 'ramn', 'ids': [[[5, 0], True]], 'thrs': [[0, 'm'], [0, 'm']], 'nsw': 2, 'init': 'two-sweepers'}
     for order in itertools.permutations(['0', '1', 'S0', 'S1']):
-        # quick: only the sweepers pre-empt (the windows of C13-F21 open between two sweeps)
+        # only the sweepers pre-empt (the windows of C13-F21 open between two sweeps)
         chunks.append((two_sw, ['0', '1', 'S0', 'S1'], order, preempt_bound, 26 if ctx.quick() else 30, 1,
-                       ['S0', 'S1'] if ctx.quick() else None))
+                       ['S0', 'S1']))
     results = common.parallel_map(_enum_chunk, chunks, procs=8 if ctx.quick() else None)
     count = 0
     for its in results:
@@ -396,6 +415,32 @@ def check_req(ctx, plans, compare=True):
             if mj != j:
                 ctx.disagree(p, {'journal': j}, {'journal': mj},
                              'request-level lock journal (point:Session.locked:held) differs [%s]' % shape)
+
+
+def check_release_faults(ctx):
+    """The FIRST release_lock() of the request fails (transient failure of the lock layer, before anything
+    is released).  No model; oracle: whenever a later release attempt exists (Session.save's `finally`,
+    the fail-safe close hook) the lock is free after close()."""
+    base = {'kind': 'req', 'acts': ['touch'], 'out': 'ok', 'stream': False, 'gen': False, 'genTouch': False,
+            'genRaise': False, 'consume': 'full', 'saveFails': False, 'oer': 'ok', 'relFail': True,
+            'brb': [], 'bh': [], 'bf': [], 'eer': []}
+    for mode in ('implicit', 'early', 'explicit'):
+        for file in (False, True):
+            acts0 = ['acquire', 'touch'] if mode == 'explicit' else ['touch']
+            b = dict(base, mode=mode, file=file, acts=acts0)
+            for p in (dict(b), dict(b, out='exc'), dict(b, out='http'), dict(b, saveFails=True),
+                      dict(b, stream=True, gen=True, consume='abandon'), dict(b, acts=acts0 + ['regen', 'touch']),
+                      dict(b, eer=[[10, False, 'exc']])):
+                r = REQ.run_plan(p)
+                ctx.case(p, nontrivial=True, key='relFail ' + REQ.plan_line(p))
+                ctx.count('req:first_release_fails/attempts=%d' % min(r.get('release_attempts', 0), 3))
+                held = r['leaked'] or r['locked_end']
+                if r.get('release_attempts', 0) >= 2 and held:
+                    ctx.oracle_fail(p, 'the first release_lock() of the request failed, %d attempts were made, and after '
+                                       'close() the lock is still held: journal %s, held %s  [%s]'
+                                    % (r['release_attempts'], ','.join(r['journal']), r['leaked'], plan_shape(p)),
+                                    'req:lock_not_released_after_transient_release_failure:%s:%s'
+                                    % (p['mode'], 'file' if p['file'] else 'ram'))
 
 
 def targeted_plans(rng):
@@ -517,6 +562,9 @@ def fsched_oracle(case, toks, obs):
     for name, exc in sorted(obs['errors'].items()):
         who = 'clean_up()' if name == 'S' else 'request thread %s' % name
         bad.append(('%s raised %s' % (who, exc), 'fsched:raised:%s' % ('sweeper' if name == 'S' else 'request')))
+    if obs.get('livelock'):
+        bad.append(('actor(s) %s keep polling / running without ever finishing (a lock that is never released?); '
+                    'lock held by %s' % (obs['livelock'], obs['held_by']), 'fsched:livelock'))
     if obs['timeout_leak']:
         bad.append(('acquire_lock of %s raised LockTimeout, yet the request holds the file lock / Session.locked is '
                     'set afterwards' % obs['timeout_leak'], 'fsched:lock_held_after_timeout'))
@@ -732,6 +780,7 @@ def run(ctx):
     lap('file schedules')
     check_req(ctx, targeted_plans(ctx.rng))
     check_req(ctx, [REQ.gen_plan(ctx.rng) for _ in range(ctx.budget(400, 12000))])
+    check_release_faults(ctx)
     lap('request plans')
     check_wsgi(ctx, wsgi_systematic())
     check_wsgi(ctx, [WSGI.gen_case(ctx.rng) for _ in range(ctx.budget(120, 2500))])
